@@ -158,7 +158,7 @@ def gen_arc3(rng, stratum=None):
 
 def gen_poly(rng):
     np = _np()
-    n = rng.randint(1, 6)
+    n = rng.randint(2, 6)  # Spline/PolyLine data need at least two intermediate points
     scale = 10 ** rng.uniform(-1, 1.5)
     pts = [[rng.uniform(-1, 1) * scale for _ in range(3)] for _ in range(n + 2)]
     if rng.random() < 0.2:  # straight, evenly run polyline: equality case of the chord bound
@@ -412,7 +412,10 @@ def guard_probes():
 
 
 # ------------------------------------------------------------------------------------------------
-# Coq side
+# Coq side.  Every goal is a statement about the model functions themselves (arc_from_theta, arc_from_origin,
+# arc_edge_length, polyline_length) on the dyadic inputs of one Python call; intermediate values (centres,
+# adjusted radius) are enclosed in boxes that Coq checks first (lemmas of Proofs/C08_Corr.v), so that every term
+# given to `interval` stays small.  The float values of the boxes are only hints: a wrong hint fails the goal.
 
 R_ = core.float_to_R
 
@@ -421,24 +424,155 @@ def cvec(p):
     return "(%s, %s, %s)" % (R_(p[0]), R_(p[1]), R_(p[2]))
 
 
-UNFOLD = ("cbv [arc_from_theta arc_from_theta_v0 theta_centre theta_pm theta_rm theta_len theta_chord arc_mid secant_mid vunit dist "
-          "arc_from_origin_noadj arc_from_origin_adj origin_new_centre origin_mean_radius origin_flat_radius "
-          "a3_len_flip a3_len_noflip acos_atan a3_x a3_flipq a3_radius a3_centre a3_denom arc_collinearity polyline_length "
-          "norm norm2 dot cross vadd vsub vscale vx vy vz fst snd dy tol_const]")
+class Pool:
+    """the inputs of one goal: every float becomes a universally quantified real with the hypothesis
+    `a = <exact dyadic literal>` (so each literal is read once by `interval`, however often the model uses it)"""
+
+    def __init__(self):
+        self.names = {}
+
+    def r(self, x):
+        x = float(x)
+        key = x.hex()
+        if key not in self.names:
+            self.names[key] = ("a%d" % len(self.names), x)
+        return self.names[key][0]
+
+    def vec(self, p):
+        return "(%s, %s, %s)" % (self.r(p[0]), self.r(p[1]), self.r(p[2]))
+
+    def goal(self, gid, stmt, tactic):
+        """tactic is a format string with one %(iv)s-style slot set: it is tried at 64 and then at 120 bits, so that
+        a goal is reported as MISMATCH only if the numbers disagree, not because an enclosure was too wide"""
+        items = sorted(self.names.values(), key=lambda nv: int(nv[0][1:]))
+        binders = " ".join(n for n, _x in items)
+        hyps = " -> ".join("%s = %s" % (n, R_(x)) for n, x in items)
+        t1 = tactic.replace("@IV@", "interval with (i_prec 64)")
+        t2 = tactic.replace("@IV@", "interval with (i_prec 120)")
+        return ("Goal forall %s : R, %s ->\n  %s.\nProof.\n  intros; boxes.\n  first [ %s; idtac \"OK %d\" | %s; idtac \"OK %d\" | idtac \"MISMATCH %d\" ].\nAbort.\n"
+                % (binders, hyps, stmt, t1, gid, t2, gid, gid))
 
 
-def close3(expr, y, tol):
-    return " /\\ ".join("Rabs (%s (%s) - %s) <= %s" % (c, expr, R_(y[i]), R_(tol)) for i, c in enumerate(("vx", "vy", "vz")))
+CBV_LIST = ("close3 inbox arc_from_theta theta_pm theta_rm theta_len theta_chord arc_mid secant_mid vunit dist "
+            "arc_from_origin_noadj origin_new_centre origin_mean_radius "
+            "a3_len_flip_at a3_len_noflip_at acos_atan a3_x_at a3_flipq_at a3_centre a3_denom arc_collinearity polyline_length "
+            "norm norm2 dot cross vadd vsub vscale vx vy vz fst snd dy tol_const")
+CBV = "cbv [%s] in *" % CBV_LIST
+IV = "@IV@"
+IVS = "repeat split; " + IV
+IVBOX = "split; [ %s | split; [ %s | %s ] ]" % (IV, IV, IV)  # inbox lo hi p: three double inequalities
+BOXW = 1e-14  # half width of the enclosures of intermediate values, relative to the size of the case
 
 
-def goal_text(gid, body, tactic="repeat split; interval with (i_prec 80)"):
-    return ("Goal %s.\nProof. %s.\n  first [ %s; idtac \"OK %d\" | idtac \"MISMATCH %d\" ].\nAbort.\n"
-            % (body, UNFOLD, tactic, gid, gid))
+def box(c, half):
+    lo = [float(x) - half for x in c]
+    hi = [float(x) + half for x in c]
+    return cvec(lo), cvec(hi)
+
+
+def _fr(p):
+    from fractions import Fraction
+    return [Fraction(float(x)) for x in p]
+
+
+def _fdot(a, b):
+    return a[0] * b[0] + a[1] * b[1] + a[2] * b[2]
+
+
+def _fcross(a, b):
+    return [a[1] * b[2] - a[2] * b[1], a[2] * b[0] - a[0] * b[2], a[0] * b[1] - a[1] * b[0]]
+
+
+def _fsub(a, b):
+    return [a[i] - b[i] for i in range(3)]
+
+
+def a3_exact(ps, pb, pe):
+    """exact rational evaluation of the centre, of the sign quantity and of 1 - cos^2 of arc_length_3point:
+    hints for the staged proof (a wrong hint makes the goal fail, it cannot make it pass)"""
+    ps, pb, pe = _fr(ps), _fr(pb), _fr(pe)
+    a, b = _fsub(pb, ps), _fsub(pe, ps)
+    denom = _fdot(a, a) * _fdot(b, b) - _fdot(a, b) ** 2
+    if denom <= 0:
+        return None
+    fact = (_fdot(b, b) - _fdot(a, b)) / (2 * denom)
+    w = _fcross(_fcross(a, b), a)
+    centre = [ps[i] + a[i] / 2 + fact * w[i] for i in range(3)]
+    rs, rb, re_ = _fsub(ps, centre), _fsub(pb, centre), _fsub(pe, centre)
+    q = _fdot(_fcross(rs, rb), _fcross(rs, re_))
+    r4 = _fdot(re_, re_) ** 2
+    sin2 = 1 - _fdot(rs, re_) ** 2 / (_fdot(rs, rs) * _fdot(re_, re_))
+    return dict(centre=[float(x) for x in centre], q=float(q / r4), sin2=float(sin2))
+
+
+def length_goal(gid, case, ends, L, valid, size):
+    """ArcEdgeBase.length of the arc through ends = (v1, third point, v2)"""
+    P = Pool()
+    cps, cpb, cpe = (P.vec(e) for e in ends)
+    k = case["kind"]
+    ltol, near = len_tol(case, abs(L)) if k != "helix" else (REL * max(size, abs(L)), False)
+    stmt = "Rabs (arc_edge_length tol_const %s %s %s - %s) <= %s" % (cps, cpb, cpe, R_(L), R_(ltol))
+    if not valid:
+        tac = "apply arc_edge_length_collinear; [ %s; %s | %s; %s ]" % (CBV, IV, CBV, IV)
+        return (gid, "length-straight", P.goal(gid, stmt, tac))
+    h = a3_exact(*ends)
+    if h is None:
+        return None
+    lo, hi = box(h["centre"], BOXW * size)
+    if h["sin2"] < 1e-12:
+        # half circle to within rounding: cos = -1 +- 1e-12, acos is evaluated at the end of its domain where the
+        # atan form is not available; decided by the direct oracle only (see notes), counted as boundary
+        return (gid, "length-halfcircle", None)
+    if abs(h["q"]) < 1e-9:
+        branch, what = "a3_len_at_either", "length-boundary"
+    elif h["q"] < 0:
+        branch, what = "a3_len_at_flip", "length-flip"
+    else:
+        branch, what = "a3_len_at_noflip", "length-noflip"
+    staged = ("apply (a3_length_staged _ _ _ _ _ %s %s); [ %s; %s | intros x y z Hx Hy Hz; apply %s; %s; %s ]"
+              % (lo, hi, CBV, IVBOX, branch, CBV, IVS))
+    tac = "apply arc_edge_length_valid; [ %s; %s | %s; %s | %s ]" % (CBV, IV, CBV, IV, staged)
+    return (gid, what, P.goal(gid, stmt, tac))
+
+
+def origin_hints(case):
+    """50-digit re-computation of the adjusted radius and centre of arc_from_origin"""
+    import decimal
+    from decimal import Decimal as D
+    ctx = decimal.Context(prec=60)
+
+    def dv(p):
+        return [ctx.create_decimal(D(float(x))) for x in p]
+
+    def dot(a, b):
+        return sum((ctx.multiply(a[i], b[i]) for i in range(3)), D(0))
+
+    def sub(a, b):
+        return [ctx.subtract(a[i], b[i]) for i in range(3)]
+
+    def cross(a, b):
+        return [a[1] * b[2] - a[2] * b[1], a[2] * b[0] - a[0] * b[2], a[0] * b[1] - a[1] * b[0]]
+
+    with decimal.localcontext(ctx):
+        p1, p3, c = dv(case["p1"]), dv(case["p3"]), dv(case["origin"])
+        r1, r3 = sub(p1, c), sub(p3, c)
+        chord = sub(p3, p1)
+        nchord = dot(chord, chord).sqrt()
+        mean = (dot(r1, r1).sqrt() + dot(r3, r3).sqrt()) / 2
+        if case["flatness"] == 1:
+            radius, floor = mean, None
+        else:
+            a, b = mean * D(float(case["flatness"])), D(1001) / D(1000) / 2 * nchord
+            radius, floor = max(a, b), (b > a)
+        w = cross(cross(r1, r3), chord)
+        nw = dot(w, w).sqrt()
+        h = (radius * radius - nchord * nchord / 4).sqrt()
+        centre = [(p3[i] + p1[i]) / 2 + h * w[i] / nw for i in range(3)]
+        return float(radius), floor, [float(x) for x in centre]
 
 
 def coq_goals(case, ob, gid_base):
-    """Returns list of (gid, what, text).  Every goal says: the model, on the inputs the code got, is within
-    tolerance of what the code returned (and takes the branch the code took)."""
+    """Returns list of (gid, what, text or None)."""
     goals = []
     k = case["kind"]
     if "error" in ob:
@@ -448,91 +582,56 @@ def coq_goals(case, ob, gid_base):
     nan = any(isinstance(x, float) and math.isnan(x) for x in ob.get("third", [])) or math.isnan(ob.get("length", 0.0))
     if nan:
         return [(gid_base, "nan", "Goal False.\nProof. idtac \"MISMATCH %d\".\nAbort.\n" % gid_base)]
+    P = Pool()
     if k in ("theta", "helix"):
-        expr = "arc_from_theta %s %s %s %s" % (cvec(case["p1"]), cvec(case["p2"]), R_(case["theta"]), cvec(ob["axis"]))
-        goals.append((gid_base, "mid", goal_text(gid_base, close3(expr, ob["third"], tol))))
+        stmt = "close3 (arc_from_theta %s %s %s %s) %s %s" % (P.vec(case["p1"]), P.vec(case["p2"]), P.r(case["theta"]), P.vec(ob["axis"]),
+                                                            cvec(ob["third"]), R_(tol))
+        goals.append((gid_base, "mid", P.goal(gid_base, stmt, "%s; %s" % (CBV, IVS))))
         ends = (case["p1"], ob["third"], case["p2"])
     elif k == "origin":
-        p1, p3, c = cvec(case["p1"]), cvec(case["p3"]), cvec(case["origin"])
-        diff = "Rabs (norm (vsub %s %s) - norm (vsub %s %s))" % (p1, c, p3, c)
-        if case["flatness"] == 1:
-            gap = abs(_dist(case["p1"], case["origin"]) - _dist(case["p3"], case["origin"]))
-            if gap > 1e-7:
-                body = "tol_const < %s /\\ %s" % (diff, close3("arc_from_origin_adj %s %s %s (origin_mean_radius %s %s %s)" % (p1, p3, c, p1, p3, c), ob["third"], tol))
-            else:
-                body = "%s <= tol_const /\\ %s" % (diff, close3("arc_from_origin_noadj %s %s %s" % (p1, p3, c), ob["third"], tol))
+        p1, p3, c = P.vec(case["p1"]), P.vec(case["p3"]), P.vec(case["origin"])
+        m, t = cvec(ob["third"]), R_(tol)
+        flat = case["flatness"]
+        gap = abs(_dist(case["p1"], case["origin"]) - _dist(case["p3"], case["origin"]))
+        if flat == 1 and gap <= 1e-7:
+            stmt = "close3 (arc_from_origin tol_const %s %s %s 1) %s %s" % (p1, p3, c, m, t)
+            tac = "apply origin_case_noadj; [ %s; %s | %s; %s ]" % (CBV, IV, CBV, IVS)
+            goals.append((gid_base, "mid-origin", P.goal(gid_base, stmt, tac)))
         else:
-            body = close3("arc_from_origin_adj %s %s %s (origin_flat_radius %s %s %s %s)" % (p1, p3, c, p1, p3, c, R_(case["flatness"])), ob["third"], tol)
-        tac = "repeat split; try (apply Rmax_case); interval with (i_prec 80)"
-        if case["flatness"] != 1:
-            # Rmax inside the argument: decide the floor by evaluation on both alternatives
-            body_l = body.replace("origin_flat_radius %s %s %s %s" % (p1, p3, c, R_(case["flatness"])),
-                                  "origin_mean_radius %s %s %s * %s" % (p1, p3, c, R_(case["flatness"])))
-            body_r = body.replace("origin_flat_radius %s %s %s %s" % (p1, p3, c, R_(case["flatness"])),
-                                  "1001 / 1000 * / 2 * norm (vsub %s %s)" % (p3, p1))
-            lhs = "origin_mean_radius %s %s %s * %s" % (p1, p3, c, R_(case["flatness"]))
-            rhs = "1001 / 1000 * / 2 * norm (vsub %s %s)" % (p3, p1)
-            body = "(%s <= %s /\\ %s) \\/ (%s <= %s /\\ %s)" % (rhs, lhs, body_l, lhs, rhs, body_r)
-            tac = "first [ left; repeat split; interval with (i_prec 80) | right; repeat split; interval with (i_prec 80) ]"
-        goals.append((gid_base, "mid", goal_text(gid_base, body, tac)))
+            _radius, floor, centre = origin_hints(case)
+            lo, hi = box(centre, BOXW * size)
+            if flat == 1:
+                stmt = "close3 (arc_from_origin tol_const %s %s %s 1) %s %s" % (p1, p3, c, m, t)
+                head = "apply origin_case_adj; [ %s; %s | " % (CBV, IV)
+                what = "mid-adjusted"
+            else:
+                stmt = "close3 (arc_from_origin tol_const %s %s %s %s) %s %s" % (p1, p3, c, P.r(flat), m, t)
+                head = ("apply origin_case_flat; [ %s; %s; %s | rewrite %s by (%s; %s); "
+                        % ("left" if flat < 1 else "right", CBV, IV, "origin_flat_radius_floor" if floor else "origin_flat_radius_scaled", CBV, IV))
+                what = "mid-flat-floor" if floor else "mid-flat"
+            tac = (head + "apply (origin_adj_staged _ _ _ _ _ _ %s %s); [ %s; %s | intros x y z Hx Hy Hz; %s; %s ] ]"
+                   % (lo, hi, CBV, IVBOX, CBV, IVS))
+            goals.append((gid_base, what, P.goal(gid_base, stmt, tac)))
         ends = (case["p1"], ob["third"], case["p3"])
     elif k == "arc3":
         ends = (case["ps"], case["pb"], case["pe"])
     elif k == "poly":
         pts = [case["v1"]] + case["points"] + [case["v2"]]
-        expr = "polyline_length [%s]" % "; ".join(cvec(p) for p in pts)
-        body = "Rabs (%s - %s) <= %s" % (expr, R_(ob["length"]), R_(REL * max(size, ob["length"])))
-        return [(gid_base, "polyline", goal_text(gid_base, body))]
+        stmt = "Rabs (polyline_length [%s] - %s) <= %s" % ("; ".join(P.vec(p) for p in pts), R_(ob["length"]), R_(REL * max(size, ob["length"])))
+        return [(gid_base, "polyline", P.goal(gid_base, stmt, "%s; %s" % (CBV, IV)))]
+    elif k == "chord" and case["edge"] == "arc_collinear":
+        g = length_goal(gid_base + 1, case, (case["v1"], case["point"], case["v2"]), ob["length"], False, size)
+        return [g]
     else:
         return goals
-    # length through ArcEdgeBase.length: valid arcs use arc_length_3point, others the end point distance
-    np = _np()
-    ps, pb, pe = (np.array(x) for x in ends)
-    a, b = pb - ps, pe - ps
-    denom = float(a.dot(a) * b.dot(b) - a.dot(b) ** 2)
-    cps, cpb, cpe = cvec(ends[0]), cvec(ends[1]), cvec(ends[2])
-    L = ob["length"]
-    ltol, near = len_tol(case, abs(L)) if k != "helix" else (1e-9 * max(size, abs(L)), False)
-    coll = float(np.linalg.norm(np.cross(ps - pb, pe - pb)))
-    if not ob.get("valid", True):
-        body = "arc_collinearity %s %s %s <= tol_const * (1 + 1 / 1000) /\\ Rabs (dist %s %s - %s) <= %s" % (cps, cpb, cpe, cps, cpe, R_(L), R_(ltol))
-        goals.append((gid_base + 1, "length-invalid", goal_text(gid_base + 1, body)))
-        return goals
-    if denom <= 0:
-        return goals
-    # which branch did the code take?  recompute the sign quantity in floats only to pick the goal; Coq decides it
-    fact = 0.5 * (b.dot(b) - a.dot(b)) / denom
-    centre = ps + 0.5 * a + fact * np.cross(np.cross(a, b), a)
-    rs, rb, re_ = ps - centre, pb - centre, pe - centre
-    q = float(np.dot(np.cross(rs, rb), np.cross(rs, re_)))
-    r4 = float(np.dot(re_, re_)) ** 2
-    valid_part = "tol_const * (1 - 1 / 1000) <= arc_collinearity %s %s %s" % (cps, cpb, cpe) if coll < 1e-6 else None
-    flip = "Rabs (a3_len_flip %s %s %s - %s) <= %s" % (cps, cpb, cpe, R_(L), R_(ltol))
-    noflip = "Rabs (a3_len_noflip %s %s %s - %s) <= %s" % (cps, cpb, cpe, R_(L), R_(ltol))
-    dom = "0 < 1 - a3_x %s %s %s * a3_x %s %s %s" % (cps, cpb, cpe, cps, cpb, cpe)
-    if abs(q) < 1e-9 * r4 or near:
-        body = "%s /\\ (%s \\/ %s)" % (dom, flip, noflip)
-        tac = "split; [ interval with (i_prec 80) | first [ left; interval with (i_prec 80) | right; interval with (i_prec 80) ] ]"
-        what = "length-boundary"
-    elif q < 0:
-        body = "a3_flipq %s %s %s < 0 /\\ %s /\\ %s" % (cps, cpb, cpe, dom, flip)
-        tac = "repeat split; interval with (i_prec 80)"
-        what = "length-flip"
-    else:
-        body = "0 <= a3_flipq %s %s %s /\\ %s /\\ %s" % (cps, cpb, cpe, dom, noflip)
-        tac = "repeat split; interval with (i_prec 80)"
-        what = "length-noflip"
-    if valid_part:
-        body = "%s /\\ %s" % (valid_part, body)
-        tac = "split; [ interval with (i_prec 80) | %s ]" % tac
-    goals.append((gid_base + 1, what, goal_text(gid_base + 1, body, tac)))
-    if k == "arc3" and abs(ob["length_fn"] - L) > 0:
-        goals.append((gid_base + 2, "length_fn", goal_text(gid_base + 2, body.replace(R_(L), R_(ob["length_fn"])), tac)))
+    g = length_goal(gid_base + 1, case, ends, ob["length"], ob.get("valid", True), size)
+    if g:
+        goals.append(g)
     return goals
 
 
 HEADER = ("From Coq Require Import Reals List.\nFrom Interval Require Import Tactic.\n"
-          "From CB Require Import Base.Vec3 Model.C08_Arcs Gen.C08.Consts.\nImport ListNotations.\nOpen Scope R_scope.\n\n")
+          "From CB Require Import Base.Vec3 Model.C08_Arcs Proofs.C08_Corr Gen.C08.Consts.\nImport ListNotations.\nOpen Scope R_scope.\n\n")
 
 
 def canonical(case):
@@ -561,7 +660,7 @@ CORPUS = [
 class C08(Prop):
     pid = "C08"
     title = "Alternative arc specifications equal the analytic circle"
-    prebuilt = ["Base/Vec3.v", "Model/C08_Arcs.v", "Proofs/C08_Theta.v", "Proofs/C08_Chord.v", "Proofs/C08_ThreePoint.v"]
+    prebuilt = ["Base/Vec3.v", "Model/C08_Arcs.v", "Proofs/C08_Theta.v", "Proofs/C08_Chord.v", "Proofs/C08_ThreePoint.v", "Proofs/C08_Corr.v"]
     gen_dependent_files = ["Gen/C08/Consts.v"]
     property_files = ["Properties/C08.v"]
     trusted = [
@@ -595,7 +694,7 @@ class C08(Prop):
     def make_cases(self, ctx):
         rng = ctx.rng
         cases = [dict(c) for c in CORPUS]
-        n = ctx.n(150, 4000)
+        n = ctx.n(80, 2400)
         for s in ("minor", "reflex", "near_pi", "pi", "small", "large"):
             for _ in range(3):
                 cases.append(gen_theta(rng, s))
@@ -638,21 +737,20 @@ class C08(Prop):
             if bad:
                 res.oracle_failures.append(dict(kind=case["kind"], case=case, observed=ob, sig=bad[0], why=bad[1]))
             for (gid, what, text) in coq_goals(case, ob, 10 * i):
-                goals.append((gid, i, what, text))
                 res.count("goal=" + what)
-                if what == "length-boundary":
+                if what in ("length-boundary", "length-halfcircle"):
                     res.boundary += 1
+                if text is not None:
+                    goals.append((gid, i, what, text))
         for g in guard_probes():
             res.oracle_failures.append(g)
         res.evaluations += 5
         res.samples = [dict(case=cases[i], observed=obs[i]) for i in (0, 2, len(cases) // 2, len(cases) - 1)]
-        # shard
-        per = 45
-        shards = []
-        for k in range(0, len(goals), per):
-            shards.append(("cases_%d" % (k // per), HEADER + "\n".join(g[3] for g in goals[k:k + per])))
+        # shard: at most 16 files in the quick tier, goals dealt round-robin so that the files are balanced
+        nshards = min(16, max(1, len(goals) // 12)) if ctx.quick else max(16, len(goals) // 60)
+        shards = [("cases_%d" % k, HEADER + "\n".join(g[3] for g in goals[k::nshards])) for k in range(nshards)]
         seen = {}
-        for (name, rc, so, se) in core.run_cases_parallel(ctx, shards, timeout=1200):
+        for (name, rc, so, se) in core.run_cases_parallel(ctx, shards, timeout=600):
             if rc != 0:
                 res.error = "case file %s failed to compile: %s" % (name, se[-800:])
                 return res
